@@ -34,6 +34,7 @@ OUTCOMES = (
     "lost",  # connection_lost(OSError)
     "icmp+reply",  # ICMP error and a reply in the same loop iteration
     "cancel",  # the caller cancels the call while it waits
+    "empty-reply",  # a zero-length datagram is a reply too
 )
 REQUEST = bytes.fromhex("302602010104067075626c6963a01902047f000001020100020100300b300906052b060102010500")
 REPLY = b"\x30\x03reply-%d"
@@ -61,6 +62,13 @@ def make_run(retries, timeout):
 
         def on_sendto(tr, data):
             i = len(chosen)
+            if i >= retries + 2:
+                # horizon: the call keeps transmitting beyond its budget; no
+                # further environment choices, the attempt stays unanswered
+                # and the call is cancelled
+                chosen.append("beyond-horizon")
+                loop.call_soon(task.cancel)
+                return
             k = ctx.choose(len(OUTCOMES), "attempt%d" % i)
             o = OUTCOMES[k]
             chosen.append(o)
@@ -97,6 +105,8 @@ def make_run(retries, timeout):
                 at(now + delta, lambda: loop.call_soon(tr.inject_datagram, reply))
             elif o == "cancel":
                 at(now + delta, lambda: task.cancel())
+            elif o == "empty-reply":
+                at(now + delta, lambda: tr.inject_datagram(b""))
 
         def tie_break(due):
             mine_first = sorted([h for h in due if h in injected and h not in after], key=order.get)
@@ -181,8 +191,9 @@ def judge(retries, timeout, delta, chosen, result, exc, done_at, task_done, send
     for i, o in enumerate(chosen, start=1):
         start = (i - 1) * timeout
         last = i == n
-        if o in ("reply", "two-replies"):
-            if not last or result != REPLY % (i - 1) or done_at != start + delta:
+        if o in ("reply", "two-replies", "empty-reply"):
+            want = b"" if o == "empty-reply" else REPLY % (i - 1)
+            if not last or result != want or done_at != start + delta:
                 bad("reply-in-time-not-returned-at-once", attempt=i, expected_at=start + delta)
             return out
         if o == "reply@timeout-before-timer":
@@ -341,7 +352,7 @@ def replay(case):
 def meta(tier):
     return {
         "level": "model_checking",
-        "rule": "choice tree per (retries, timeout) in %r: at each sendto of the real send_udp on the virtual loop one of 10 outcomes %r; all sequences (unbounded deviations); every execution runs the real transport code to completion on a fresh loop; non-trivial = at least one non-default outcome; states = decision nodes + executions, transitions = decisions"
+        "rule": "choice tree per (retries, timeout) in %r: at each sendto of the real send_udp on the virtual loop one of 11 outcomes %r; all sequences (unbounded deviations); every execution runs the real transport code to completion on a fresh loop; non-trivial = at least one non-default outcome; states = decision nodes + executions, transitions = decisions"
         % (configs(tier), list(OUTCOMES)),
         "exhaustive": True,
         "bounds": {"configs": [list(c) for c in configs(tier)], "outcomes_per_attempt": len(OUTCOMES)},
